@@ -232,7 +232,6 @@ theorem mem_replies {n : Net} {v : Variant} {low : Nat → Nat} {tm : Timing} {m
 /-- everything the parallel theorems assume about one run -/
 structure ParRun (n : Net) (v : Variant) (low : Nat → Nat) (tm : Timing) (min max last : Nat) : Prop where
   wf : WF n
-  notSyn : v ≠ .tcpSyn
   sackOn : v = .sack → n.dest.sackEnabled = true
   lowOK : v = .sack → LowOK n min low
   timing : tm.OK
@@ -371,5 +370,305 @@ theorem parallel_trace {n : Net} {v : Variant} {low : Nat → Nat} {tm : Timing}
   obtain ⟨r, hops, h1, h2, h3, h4⟩ := pathSlots_result hmm hps
   refine ⟨r, hops, ?_, h2, h3, h4⟩
   rw [parallelRun_clean R.min1 hmm hc hv, h1]
+
+
+/-! ## Serial engine (TCP SYN) -/
+
+theorem outAt_router {n : Net} {v : Variant} {low : Nat → Nat} {tm : Timing} {t : Nat} {r : Router}
+    (hwf : WF n) (h1 : 1 ≤ t) (h2 : t ≤ n.routers.length) (hr : n.routers[t - 1]? = some r) :
+    outAt n v low tm t =
+      if r.silent then [] else [.accept { ttl := t, ip := r.addr, rtt := rttOf tm t t, dest := false }] := by
+  obtain ⟨r', hr', hf⟩ := forward_router (destReply n.dest v) n.routers t h1 h2
+  rw [hr] at hr'; cases hr'
+  have hne : r.addr ≠ n.dest.addr := hwf r (List.mem_of_getElem? hr)
+  unfold outAt seenAt respond
+  rw [hf]
+  unfold routerReply
+  by_cases hs : r.silent = true
+  · simp [hs]
+  · cases v <;> simp [hs, seen, hne]
+
+theorem outAt_dest_syn {n : Net} {low : Nat → Nat} {tm : Timing} {t : Nat}
+    (ht : n.routers.length + 1 ≤ t) :
+    outAt n .tcpSyn low tm t =
+      [.accept { ttl := t, ip := n.dest.addr, rtt := rttOf tm t t, dest := true }] := by
+  unfold outAt seenAt respond
+  rw [forward_dest _ _ _ ht]
+  cases hp : n.dest.port <;> simp [destReply, seen, hp]
+
+theorem serialWindow_noise {min max : Nat} (w : List ROut) : ∀ k : Nat,
+    serialWindow min max (List.replicate k .retry ++ w) = serialWindow min max w := by
+  intro k
+  induction k with
+  | zero => simp
+  | succ k ih => simpa [List.replicate_succ, serialWindow] using ih
+
+/-- the slots filled by the windows of TTLs `lo .. t-1` -/
+def upTo (n : Net) (tm : Timing) (lo t : Nat) : Slots := fun u =>
+  if lo ≤ u ∧ u < t then probeAt n .tcpSyn id tm u else none
+
+theorem upTo_step_none {n : Net} {tm : Timing} {lo t : Nat}
+    (h : probeAt n .tcpSyn id tm t = none) : upTo n tm lo (t + 1) = upTo n tm lo t := by
+  funext u
+  unfold upTo
+  by_cases hu : u = t
+  · subst hu; simp [h]
+  · have : (u < t + 1) = (u < t) := by apply propext; omega
+    simp [this]
+
+theorem upTo_step_some {n : Net} {tm : Timing} {lo t : Nat} {p : Probe} (hlo : lo ≤ t)
+    (h : probeAt n .tcpSyn id tm t = some p) (hp : p.ttl = t) :
+    serialWrite (upTo n tm lo t) p = upTo n tm lo (t + 1) := by
+  funext u
+  unfold serialWrite upTo
+  by_cases hu : u = t
+  · subst hu; simp [hp, h, hlo]
+  · have : (u < t + 1) = (u < t) := by apply propext; omega
+    simp [hp, hu, this]
+
+/-- the windows of TTLs that expire at routers are consumed one by one -/
+theorem serialLoop_routers {n : Net} {tm : Timing} {noise : Nat → Nat} {min max lo : Nat} (hwf : WF n)
+    (rest : List (List ROut)) : ∀ (k t : Nat), lo ≤ t →
+    (∀ u, t ≤ u → u < t + k → 1 ≤ u ∧ u ≤ n.routers.length ∧ min ≤ u ∧ u ≤ max) →
+    serialLoop min max (upTo n tm lo t) ((List.range' t k).map (synWindow n tm noise) ++ rest) =
+      serialLoop min max (upTo n tm lo (t + k)) rest := by
+  intro k
+  induction k with
+  | zero => intro t _ _; simp
+  | succ k ih =>
+    intro t hlo hr
+    obtain ⟨h1, h2, h3, h4⟩ := hr t (Nat.le_refl _) (by omega)
+    obtain ⟨r, hrr, _⟩ := forward_router (destReply n.dest .tcpSyn) n.routers t h1 h2
+    have hout := outAt_router (v := .tcpSyn) (low := id) (tm := tm) hwf h1 h2 hrr
+    have hpa := probeAt_router (v := .tcpSyn) (low := id) (tm := tm) hwf h1 h2 hrr
+    have hnext := ih (t + 1) (by omega) (fun u hu1 hu2 => hr u (by omega) (by omega))
+    have hk : t + (k + 1) = t + 1 + k := by omega
+    simp only [List.range'_succ, List.map_cons, List.cons_append, serialLoop, synWindow,
+      serialWindow_noise, hout]
+    by_cases hs : r.silent = true
+    · simp only [hs, if_true, serialWindow] at hpa ⊢
+      rw [hk, ← hnext, upTo_step_none hpa]
+    · have hs' : r.silent = false := by simpa using hs
+      simp only [hs', Bool.false_eq_true, if_false] at hpa ⊢
+      have hvp : validProbe min max { ttl := t, ip := r.addr, rtt := rttOf tm t t, dest := false } = true := by
+        simp [validProbe, h3, h4]
+      simp only [serialWindow, hvp, if_true, Bool.false_eq_true, if_false]
+      rw [upTo_step_some hlo hpa rfl, hk, ← hnext]
+
+/-- the final slot array of the serial engine follows the path -/
+theorem upTo_pathSlots {n : Net} {tm : Timing} {min max : Nat} (hwf : WF n) (htm : tm.OK)
+    (h1 : 1 ≤ min) (hmm : min ≤ max) :
+    PathSlots n min max (upTo n tm min (Nat.min (destTTL n min) max + 1)) := by
+  have hdge := destTTL_ge_min n min
+  have hdlen := destTTL_gt_len n min
+  have hcutle : Nat.min (destTTL n min) max ≤ destTTL n min := Nat.min_le_left _ _
+  have hcutmax : Nat.min (destTTL n min) max ≤ max := Nat.min_le_right _ _
+  have hcutmin : min ≤ Nat.min (destTTL n min) max := Nat.le_min.mpr ⟨hdge, hmm⟩
+  have R : ParRun n .tcpSyn id tm min max (Nat.min (destTTL n min) max) :=
+    { wf := hwf, sackOn := (fun h => by cases h), lowOK := (fun h => by cases h), timing := htm,
+      min1 := h1, minLast := hcutmin, lastMax := hcutmax,
+      sentAll := by
+        rcases Nat.lt_or_ge max (destTTL n min) with hgt | hle
+        · left; exact Nat.min_eq_right (Nat.le_of_lt hgt)
+        · right; exact Nat.le_of_eq (Nat.min_eq_left hle).symm }
+  have hfrom : ∀ t p, upTo n tm min (Nat.min (destTTL n min) max + 1) t = some p →
+      min ≤ t ∧ t ≤ Nat.min (destTTL n min) max ∧ probeAt n .tcpSyn id tm t = some p := by
+    intro t p hp
+    unfold upTo at hp
+    split at hp
+    · rename_i hc; exact ⟨hc.1, by omega, hp⟩
+    · cases hp
+  constructor
+  · intro t ht; simp [upTo]; omega
+  · intro t p hp
+    obtain ⟨ht1, ht2, hpa⟩ := hfrom t p hp
+    rcases probeAt_cases R ht1 hpa with ⟨_, h, _⟩ | ⟨hN, hl, hu, _, _, _, _⟩
+    · exact h
+    · omega
+  · intro t ht1 ht2 ht3
+    have htN : t ≤ n.routers.length := by
+      rcases destTTL_cases n min with e | e <;> omega
+    have htc : t < Nat.min (destTTL n min) max + 1 :=
+      Nat.lt_succ_of_le (Nat.le_min.mpr ⟨Nat.le_of_lt ht3, ht2⟩)
+    obtain ⟨r, hr, _⟩ := forward_router (destReply n.dest .tcpSyn) n.routers t (by omega) htN
+    have hpa := probeAt_router (v := .tcpSyn) (low := id) (tm := tm) hwf (by omega) htN hr
+    have hs : upTo n tm min (Nat.min (destTTL n min) max + 1) t = probeAt n .tcpSyn id tm t := by
+      simp [upTo, ht1, htc]
+    rw [hs, hpa]
+    cases hsil : r.silent <;> simp [routerHop, hr, hopOf, erase, hsil]
+  · intro hdm
+    have e : Nat.min (destTTL n min) max = destTTL n min := Nat.min_eq_left hdm
+    have hpd := probeAt_dest (n := n) (v := .tcpSyn) (low := id) (tm := tm) (t := destTTL n min)
+      (fun h => by cases h) hdlen
+    refine ⟨⟨ttlOf .tcpSyn id (destTTL n min), n.dest.addr,
+      rttOf tm (destTTL n min) (ttlOf .tcpSyn id (destTTL n min)), true⟩, ?_, rfl, rfl⟩
+    rw [← hpd]
+    simp [upTo, e, hdge]
+  · intro t p hp
+    obtain ⟨ht1, _, hpa⟩ := hfrom t p hp
+    rcases probeAt_cases R ht1 hpa with ⟨_, _, _, h, _⟩ | ⟨_, _, _, _, _, h, _⟩ <;> exact h
+
+/-- the slot array after all windows of a serial run -/
+theorem serialLoop_syn {n : Net} {tm : Timing} {noise : Nat → Nat} {min max : Nat} (hwf : WF n)
+    (h1 : 1 ≤ min) (hmm : min ≤ max) (extra : List (List ROut))
+    (hextra : max < destTTL n min → extra = []) :
+    serialLoop min max emptySlots (synWindows n tm noise min max ++ extra) =
+      .ok (upTo n tm min (Nat.min (destTTL n min) max + 1)) := by
+  have hdge := destTTL_ge_min n min
+  have hdlen := destTTL_gt_len n min
+  have hempty : emptySlots = upTo n tm min min := by
+    funext u; simp [emptySlots, upTo]; omega
+  unfold synWindows ttls
+  rcases Nat.lt_or_ge max (destTTL n min) with hgt | hle
+  · have e : Nat.min (destTTL n min) max = max := Nat.min_eq_right (Nat.le_of_lt hgt)
+    rw [e, hextra hgt, hempty]
+    have := serialLoop_routers (n := n) (tm := tm) (noise := noise) (min := min) (max := max) (lo := min)
+      hwf [] (max + 1 - min) min (Nat.le_refl _) (by
+        intro u hu1 hu2
+        rcases destTTL_cases n min with e' | e' <;> omega)
+    rw [this]
+    have hk : min + (max + 1 - min) = max + 1 := by omega
+    simp [serialLoop, hk]
+  · have e : Nat.min (destTTL n min) max = destTTL n min := Nat.min_eq_left hle
+    have hsplit : List.range' min (destTTL n min + 1 - min) =
+        List.range' min (destTTL n min - min) ++ [destTTL n min] := by
+      have : destTTL n min + 1 - min = (destTTL n min - min) + 1 := by omega
+      rw [this, List.range'_concat]; simp; omega
+    rw [e, hsplit, List.map_append, List.append_assoc, hempty]
+    have := serialLoop_routers (n := n) (tm := tm) (noise := noise) (min := min) (max := max) (lo := min)
+      hwf ([destTTL n min].map (synWindow n tm noise) ++ extra) (destTTL n min - min) min (Nat.le_refl _) (by
+        intro u hu1 hu2
+        rcases destTTL_cases n min with e' | e' <;> omega)
+    rw [this]
+    have hk : min + (destTTL n min - min) = destTTL n min := by omega
+    have hpd := probeAt_dest (n := n) (v := .tcpSyn) (low := id) (tm := tm) (t := destTTL n min)
+      (fun h => by cases h) hdlen
+    have htt : ttlOf .tcpSyn id (destTTL n min) = destTTL n min := by simp [ttlOf]
+    rw [htt] at hpd
+    have hvp : validProbe min max (⟨destTTL n min, n.dest.addr,
+        rttOf tm (destTTL n min) (destTTL n min), true⟩ : Probe) = true := by
+      simp [validProbe, hdge, hle]
+    simp only [hk, List.map_cons, List.map_nil, List.cons_append, List.nil_append, serialLoop,
+      synWindow, serialWindow_noise, outAt_dest_syn hdlen, serialWindow, hvp, if_true]
+    rw [upTo_step_some hdge hpd rfl]
+
+/-- serial engine, end to end -/
+theorem serial_trace {n : Net} {tm : Timing} {noise : Nat → Nat} {min max : Nat} (hwf : WF n)
+    (htm : tm.OK) (h1 : 1 ≤ min) (hmm : min ≤ max) (extra : List (List ROut))
+    (hextra : max < destTTL n min → extra = []) :
+    ∃ r hops, serialRun min max (synWindows n tm noise min max ++ extra) false false = .ok r ∧
+      toHops min r = some hops ∧ hops.map erase = expectedHops n min max ∧ ∀ h ∈ hops, 0 ≤ h.rtt := by
+  obtain ⟨r, hops, h2, h3, h4, h5⟩ := pathSlots_result hmm (upTo_pathSlots (tm := tm) hwf htm h1 hmm)
+  refine ⟨r, hops, ?_, h3, h4, h5⟩
+  unfold serialRun
+  have hvp : validParams min max = true := by simp [validParams, h1, hmm]
+  simp only [hvp, Bool.not_true, Bool.false_eq_true, if_false,
+    serialLoop_syn (tm := tm) (noise := noise) hwf h1 hmm extra hextra, h2]
+
+
+/-! ## A SACK engine run against a destination that answers without SACK blocks -/
+
+theorem recvLoop_fatal {min max : Nat} : ∀ (pre : List ROut) (post : List ROut) (s : Slots), Clean pre →
+    (∀ p ∈ accepted pre, validProbe min max p = true) →
+    recvLoop min max s (pre ++ .fatal :: post) = .error .recvFailed := by
+  intro pre
+  induction pre with
+  | nil => intro post s _ _; simp [recvLoop]
+  | cons o pre ih =>
+    intro post s hc hv
+    have hc' : Clean pre := fun x hx => hc x (List.mem_cons_of_mem _ hx)
+    rcases hc o (List.mem_cons_self ..) with rfl | ⟨p, rfl⟩
+    · simpa [recvLoop] using ih post s hc' (by simpa [accepted] using hv)
+    · have hvp : validProbe min max p = true := hv p (by simp [accepted])
+      simp only [List.cons_append, recvLoop, hvp, if_true]
+      exact ih post _ hc' (fun q hq => hv q (by simp [accepted, hq]))
+
+theorem seenAt_plainAck {n : Net} {low : Nat → Nat} {tm : Timing} {t : Nat}
+    (hs : n.dest.sackEnabled = false) (ht : n.routers.length + 1 ≤ t) :
+    seenAt n .sack low tm t = some .notSupported ∧ outAt n .sack low tm t = [.fatal] := by
+  unfold outAt seenAt respond
+  rw [forward_dest _ _ _ ht]
+  simp [destReply, seen, hs]
+
+/-! ## The canonical run used by the oracle -/
+
+theorem outAt_dest {n : Net} {v : Variant} {low : Nat → Nat} {tm : Timing} {t : Nat}
+    (hv : v = .sack → n.dest.sackEnabled = true) (ht : n.routers.length + 1 ≤ t) :
+    outAt n v low tm t =
+      [.accept { ttl := ttlOf v low t, ip := n.dest.addr, rtt := rttOf tm t (ttlOf v low t), dest := true }] := by
+  unfold outAt seenAt respond
+  rw [forward_dest _ _ _ ht]
+  cases v with
+  | icmp => simp [destReply, seen, ttlOf]
+  | udp => simp [destReply, seen, ttlOf]
+  | tcpSyn => cases hp : n.dest.port <;> simp [destReply, seen, ttlOf, hp]
+  | sack => simp [destReply, seen, ttlOf, hv rfl]
+
+/-- per TTL: the outcome list is clean and its acceptances are exactly `probeAt` -/
+theorem outAt_probeAt {n : Net} {v : Variant} {low : Nat → Nat} {tm : Timing} {t : Nat} (hwf : WF n)
+    (hv : v = .sack → n.dest.sackEnabled = true) (h1 : 1 ≤ t) :
+    Clean (outAt n v low tm t) ∧ accepted (outAt n v low tm t) = (probeAt n v low tm t).toList := by
+  rcases Nat.lt_or_ge n.routers.length t with hgt | hle
+  · rw [outAt_dest hv hgt, probeAt_dest hv hgt]
+    exact ⟨fun o ho => by simp at ho; exact Or.inr ⟨_, ho⟩, by simp [accepted]⟩
+  · obtain ⟨r, hr, _⟩ := forward_router (destReply n.dest v) n.routers t h1 hle
+    rw [outAt_router hwf h1 hle hr, probeAt_router hwf h1 hle hr]
+    cases hs : r.silent
+    · exact ⟨fun o ho => by simp at ho; exact Or.inr ⟨_, ho⟩, by simp [accepted]⟩
+    · exact ⟨fun o ho => by simp at ho, by simp [accepted]⟩
+
+theorem accepted_append (a b : List ROut) : accepted (a ++ b) = accepted a ++ accepted b := by
+  induction a with
+  | nil => rfl
+  | cons o a ih => cases o <;> simp [accepted, ih]
+
+theorem parallelOuts_spec {n : Net} {v : Variant} {low : Nat → Nat} {tm : Timing} {min last : Nat}
+    (hwf : WF n) (hv : v = .sack → n.dest.sackEnabled = true) (h1 : 1 ≤ min) :
+    Clean (parallelOuts n v low tm min last) ∧
+      accepted (parallelOuts n v low tm min last) = replies n v low tm min last := by
+  unfold parallelOuts replies ttls
+  generalize last + 1 - min = k
+  induction k generalizing min with
+  | zero => exact ⟨fun o ho => by simp at ho, by simp [accepted]⟩
+  | succ k ih =>
+    obtain ⟨c1, a1⟩ := outAt_probeAt (n := n) (v := v) (low := low) (tm := tm) (t := min) hwf hv h1
+    obtain ⟨c2, a2⟩ := ih (min := min + 1) (by omega)
+    simp only [List.range'_succ, List.flatMap_cons, List.filterMap_cons]
+    refine ⟨?_, ?_⟩
+    · intro o ho
+      rcases List.mem_append.mp ho with h | h
+      · exact c1 o h
+      · exact c2 o h
+    · rw [accepted_append, a1, a2]
+      cases probeAt n v low tm min <;> simp
+
+theorem oracleTiming_ok : oracleTiming.OK := by
+  refine ⟨?_, ?_⟩
+  · intro a b h; simp only [oracleTiming]; exact Nat.mul_le_mul_right _ h
+  · intro t; simp only [oracleTiming]; omega
+
+theorem lowInOrder_ok (n : Net) (min : Nat) : LowOK n min (lowInOrder n min) :=
+  ⟨fun t ht => ⟨Nat.le_refl _, ht⟩, rfl⟩
+
+/-- the engine model of every variant, run in the canonical order, yields the reference list -/
+theorem runEngine_spec {n : Net} {v : Variant} {min max : Nat} (hwf : WF n)
+    (hv : v = .sack → n.dest.sackEnabled = true) (h1 : 1 ≤ min) (hmm : min ≤ max) :
+    ∃ hops, runEngine n v oracleTiming min max = some hops ∧
+      hops.map erase = expectedHops n min max ∧ ∀ h ∈ hops, 0 ≤ h.rtt := by
+  by_cases hs : v = .tcpSyn
+  · subst hs
+    obtain ⟨r, hops, h2, h3, h4, h5⟩ := serial_trace (n := n) (tm := oracleTiming) (noise := fun _ => 0)
+      hwf oracleTiming_ok h1 hmm [] (fun _ => rfl)
+    refine ⟨hops, ?_, h4, h5⟩
+    simp only [List.append_nil] at h2
+    simp [runEngine, h2, h3]
+  · have R : ParRun n v (lowInOrder n min) oracleTiming min max max :=
+      { wf := hwf, sackOn := hv, lowOK := (fun _ => lowInOrder_ok n min), timing := oracleTiming_ok,
+        min1 := h1, minLast := hmm, lastMax := Nat.le_refl _, sentAll := Or.inl rfl }
+    obtain ⟨hc, ha⟩ := parallelOuts_spec (n := n) (v := v) (low := lowInOrder n min)
+      (tm := oracleTiming) (min := min) (last := max) hwf hv h1
+    obtain ⟨r, hops, h2, h3, h4, h5⟩ := parallel_trace R hc (fun p => by rw [ha])
+    refine ⟨hops, ?_, h4, h5⟩
+    cases v <;> first | (exact absurd rfl hs) | simp [runEngine, h2, h3]
 
 end TRV.Proofs.Net
